@@ -331,6 +331,24 @@ func walkOrigins(v ssa.Value, pre func(ssa.Value) bool, leaf func(ssa.Value)) {
 				return
 			}
 			leaf(v)
+		case *ssa.Call:
+			if cal := transparentCallee(x); cal != nil && cal.Signature.Results().Len() == 1 {
+				for _, r := range Returns(cal) {
+					walk(r.Results[0])
+				}
+				return
+			}
+			leaf(v)
+		case *ssa.Extract:
+			if call, ok := x.Tuple.(*ssa.Call); ok {
+				if cal := transparentCallee(call); cal != nil && x.Index < cal.Signature.Results().Len() {
+					for _, r := range Returns(cal) {
+						walk(r.Results[x.Index])
+					}
+					return
+				}
+			}
+			leaf(v)
 		case *ssa.FreeVar:
 			if b := FreeVarBinding(x); b != nil {
 				if _, isCell := b.(*ssa.Alloc); !isCell {
@@ -742,29 +760,14 @@ func pkgSites(pkg *ssa.Package) (map[*ssa.Function][]ssa.CallInstruction, map[*s
 	}
 	sites := map[*ssa.Function][]ssa.CallInstruction{}
 	vals := map[*ssa.Function]bool{}
-	var fns []*ssa.Function
-	for _, mem := range pkg.Members {
-		switch m := mem.(type) {
-		case *ssa.Function:
-			fns = append(fns, WithAnon(m)...)
-		case *ssa.Type:
-			for _, t := range []types.Type{m.Type(), types.NewPointer(m.Type())} {
-				ms := pkg.Prog.MethodSets.MethodSet(t)
-				for i := 0; i < ms.Len(); i++ {
-					if f := pkg.Prog.MethodValue(ms.At(i)); f != nil && f.Pkg == pkg && f.Synthetic == "" {
-						fns = append(fns, WithAnon(f)...)
-					}
-				}
-			}
-		}
-	}
+	fns := pkgFuncs(pkg)
 	seen := map[*ssa.Function]bool{}
 	for _, f := range fns {
 		if seen[f] {
 			continue
 		}
 		seen[f] = true
-		AllInstrs(f, func(in ssa.Instruction) {
+		rawInstrs(f, func(in ssa.Instruction) {
 			if c, ok := in.(ssa.CallInstruction); ok {
 				if cal := CalleeFn(c.Common()); cal != nil {
 					sites[cal] = append(sites[cal], c)
@@ -827,4 +830,101 @@ func boundArgTopLevel(p *ssa.Parameter) ssa.Value {
 		}
 	}
 	return nil
+}
+
+// pkgFuncs lists the source functions of a package: package-level functions,
+// methods of its named types, and the literals nested in them.
+func pkgFuncs(pkg *ssa.Package) []*ssa.Function {
+	var fns []*ssa.Function
+	for _, mem := range pkg.Members {
+		switch m := mem.(type) {
+		case *ssa.Function:
+			fns = append(fns, WithAnon(m)...)
+		case *ssa.Type:
+			for _, t := range []types.Type{m.Type(), types.NewPointer(m.Type())} {
+				ms := pkg.Prog.MethodSets.MethodSet(t)
+				for i := 0; i < ms.Len(); i++ {
+					if f := pkg.Prog.MethodValue(ms.At(i)); f != nil && f.Pkg == pkg && f.Synthetic == "" {
+						fns = append(fns, WithAnon(f)...)
+					}
+				}
+			}
+		}
+	}
+	return fns
+}
+
+// FreshCopyOf: v is a new slice holding a full copy of a source accepted by
+// isSrc — `append(<fresh empty>, src...)`, or `make(T, len(src))` filled by a
+// `copy(dst, src)` that every use of the result passes — possibly handed out
+// by an in-package helper (one level). site is the instruction that reads src.
+func FreshCopyOf(v ssa.Value, isSrc func(ssa.Value) bool) (site ssa.Instruction, ok bool) {
+	os := Origins(v)
+	if len(os) != 1 {
+		return nil, false
+	}
+	o := os[0]
+	if call, isCall := o.(*ssa.Call); isCall {
+		if args, isApp := IsBuiltinCall(call, "append"); isApp && len(args) == 2 {
+			fresh := false
+			switch x := firstOrigin(args[0]).(type) {
+			case *ssa.Slice:
+				_, fresh = x.X.(*ssa.Alloc)
+			case *ssa.MakeSlice:
+				n, isC := IntConst(x.Len)
+				fresh = isC && n == 0
+			case *ssa.Const:
+				fresh = x.IsNil()
+			}
+			if fresh && AllOrigins(args[1], isSrc) {
+				return call, true
+			}
+			return nil, false
+		}
+		// result of an in-package helper
+		if cal := CalleeFn(&call.Call); cal != nil && cal.Pkg == call.Parent().Pkg && len(cal.Blocks) > 0 && cal.Signature.Results().Len() == 1 {
+			var s ssa.Instruction
+			for _, r := range Returns(cal) {
+				s2, ok2 := FreshCopyOf(r.Results[0], isSrc)
+				if !ok2 {
+					return nil, false
+				}
+				s = s2
+			}
+			return s, s != nil
+		}
+		return nil, false
+	}
+	if ms, isMS := o.(*ssa.MakeSlice); isMS {
+		args, isLen := IsBuiltinCall(ms.Len, "len")
+		if !isLen || !AllOrigins(args[0], isSrc) {
+			return nil, false
+		}
+		fn := ms.Parent()
+		for _, cp := range BuiltinCalls(fn, "copy") {
+			a := cp.Common().Args
+			if len(a) == 2 && AllOrigins(a[0], func(x ssa.Value) bool { return x == ssa.Value(ms) }) && AllOrigins(a[1], isSrc) && !InLoop(cp) {
+				// every return of fn (and every later use) comes after the copy: the copy must follow the make on all paths
+				okDom := true
+				for _, r := range Returns(fn) {
+					if ReachAfter(ms, NewCut().AddInstrs(cp))[r] {
+						okDom = false
+					}
+				}
+				if okDom {
+					return cp, true
+				}
+			}
+		}
+	}
+	return nil, false
+}
+
+// rawInstrs iterates over fn's own instructions (never looking through helpers).
+func rawInstrs(fn *ssa.Function, f func(ssa.Instruction)) {
+	for _, b := range fn.Blocks {
+		for _, in := range b.Instrs {
+			f(in)
+		}
+	}
 }
